@@ -3,193 +3,83 @@
 
   About the control-skeleton model `Svgdx.Ctl` (hand-written from loop_el.rs / transform.rs, tied to the
   code by the doc/loops correspondence stream with the real expression evaluator), parametric in the
-  evaluator `ev`, for all fuel. The laws below are the steps of the unrolling argument: what one
-  iteration does, that iterations only append, when the tests are made, which values the loop variable
-  takes, and that `<var v="value"/>` — what the manual unrolling writes before each copy of the body —
-  binds exactly like the loop does.
+  evaluator `ev`, for all fuel.
+
+  * `Svgdx/Proofs/C16Laws.lean` — the steps of the unrolling argument: what one iteration does, that
+    iterations only append, when the tests are made, which values the loop variable takes, and that
+    `<var v="value"/>` — what the manual unrolling writes before each copy of the body — binds exactly
+    like the loop does.
+  * `Svgdx/Proofs/Unroll.lean` — the argument itself: **a count loop and the sibling list of its
+    unrolled copies give the same final state, the same events and the same box**, whenever every
+    element of every copy succeeds at its first attempt (no forward reference has to be retried); plus
+    the lemma that makes the comparison meaningful although the two sides spend fuel differently: more
+    fuel never changes a result that was not the fuel error (for trees without a non-empty `<specs>`,
+    inside which the code — and the model — swallow errors).
+
+  What is still decided per input by the unrolling oracle: while / until loops and `<for>` as whole
+  programs, bodies that need retries, and the embedding of the loop among other siblings (index shift,
+  one nesting level of depth).
 -/
-import Svgdx.Proofs.CtlInv
-import Svgdx.Props.C08
-import Mathlib.Tactic.Ring
+import Svgdx.Proofs.C16Laws
+import Svgdx.Proofs.Unroll
 
 namespace Svgdx.Props.C16
 open Svgdx Ctl Gen
-variable {ρ : Type} (ev : Evalr ρ)
+variable {ρ : Type}
 
-/-- a result with `acc` / `bb` put in front of what it produced -/
-def prepend (acc : List Ev) (bb : Option BoundingBox) (x : St ρ × Res) : St ρ × Res :=
-  (x.1, match x.2 with
-    | .ok (evs, b) => .ok (acc ++ evs, unionOpt bb b)
-    | .error e => .error e)
+/-- **a `<loop count=N>` renders what N consecutive copies of its body render, with the loop variable
+    taking start, start+step, …** — as an equation between the loop and its manual unrolling
+    (`<var name="v"/>` followed by the body, N times, as one sibling list): same final state (scopes,
+    element table, random state, originals, …), same events, same box. Hypotheses: a legal variable name,
+    a well-formed state, no non-empty `<specs>` in the body, the evaluator returns the rendered loop
+    values unchanged, every pass succeeds at the first attempt within the limits (`FirstTryLoop`), and
+    neither side ran out of model fuel. -/
+theorem loop_equals_unrolling (ev : Evalr ρ) (name : Str) (start step : Rat) (N : Nat) (ks : Nodes) (st : St ρ)
+    (hname : name ≠ [] ∧ name ≠ ['_'] ∧ name ≠ cs!"__" ∧ name ≠ cs!"id")
+    (hok : Ok st) (hks : ks.specsFree = true)
+    (hev : LitEval ev (loopVals start step N))
+    (hfirst : FirstTryLoop ev name step ks N st start 0)
+    (fL fU : Nat)
+    (hL : NF (loopIter ev fL st ks (some N) none none name start step 0 [] none))
+    (hU : NF (processNodes ev fU st (unroll name (loopVals start step N) ks))) :
+    loopIter ev fL st ks (some N) none none name start step 0 [] none
+      = processNodes ev fU st (unroll name (loopVals start step N) ks) :=
+  loop_eq_unroll ev name start step N ks st hname hok hks hev hfirst fL fU hL hU
 
-theorem unionOpt_assoc (a b c : Option BoundingBox) : unionOpt (unionOpt a b) c = unionOpt a (unionOpt b c) := by
-  cases a <;> cases b <;> cases c <;> simp [unionOpt, C08.combine_assoc]
+/-- … and the hypotheses about fuel can be met: from some fuel on both sides SUCCEED with that common
+    state, event list and box -/
+theorem loop_and_unrolling_succeed (ev : Evalr ρ) (name : Str) (start step : Rat) (N : Nat) (ks : Nodes)
+    (st : St ρ) (hname : name ≠ [] ∧ name ≠ ['_'] ∧ name ≠ cs!"__" ∧ name ≠ cs!"id")
+    (hok : Ok st) (hks : ks.specsFree = true)
+    (hev : LitEval ev (loopVals start step N))
+    (hfirst : FirstTryLoop ev name step ks N st start 0) :
+    ∃ F s2 evs bb, ∀ fL fU, F ≤ fL → F ≤ fU →
+      loopIter ev fL st ks (some N) none none name start step 0 [] none = (s2, .ok (evs, bb)) ∧
+      processNodes ev fU st (unroll name (loopVals start step N) ks) = (s2, .ok (evs, bb)) :=
+  loop_unroll_ok ev name start step N ks st hname hok hks hev hfirst
 
-theorem unionOpt_none_left (a : Option BoundingBox) : unionOpt none a = a := by
-  cases a <;> rfl
+/-- the same for the `<loop>` ELEMENT with its `count`, `loop-var`, `start`, `step` attributes evaluated -/
+theorem loop_element_equals_unrolling (ev : Evalr ρ) (e : Elem) (name : Str) (start step : Rat) (N : Nat)
+    (ks : Nodes) (st : St ρ) (rng : ρ) (hcount : (e.getAttr cs!"count").isSome = true)
+    (hhead : loopHead ev st e = .ok (some N, name, start, step, rng))
+    (hname : name ≠ [] ∧ name ≠ ['_'] ∧ name ≠ cs!"__" ∧ name ≠ cs!"id")
+    (hok : Ok st) (hks : ks.specsFree = true)
+    (hev : LitEval ev (loopVals start step N))
+    (hfirst : FirstTryLoop ev name step ks N { st with rng := rng } start 0)
+    (fL fU : Nat)
+    (hL : NF (genLoop ev fL st e (some ks)))
+    (hU : NF (processNodes ev fU { st with rng := rng } (unroll name (loopVals start step N) ks))) :
+    genLoop ev fL st e (some ks)
+      = processNodes ev fU { st with rng := rng } (unroll name (loopVals start step N) ks) :=
+  genLoop_eq_unroll ev e name start step N ks st rng hcount hhead hname hok hks hev hfirst fL fU hL hU
 
-/-! ### `<if>` -/
-
-/-- **`<if>` renders its body exactly when its test is non-zero**: a false test renders nothing … -/
-theorem if_false_renders_nothing (fuel : Nat) (st : St ρ) (e : Elem) (ks : Nodes) (test : Str) (rng : ρ)
-    (ht : e.getAttr cs!"test" = some test)
-    (hc : ev.evalCondition st.geo st.env st.rng test = .ok (false, rng)) :
-    genIf ev (fuel + 1) st e (some ks) = ({ st with rng := rng }, .ok ([], none)) := by
-  simp [genIf, ht, hc, seq, withRng]
-
-/-- … and a true test renders exactly what the body renders where the `<if>` stands -/
-theorem if_true_renders_body (fuel : Nat) (st : St ρ) (e : Elem) (ks : Nodes) (test : Str) (rng : ρ)
-    (ht : e.getAttr cs!"test" = some test)
-    (hc : ev.evalCondition st.geo st.env st.rng test = .ok (true, rng)) :
-    genIf ev (fuel + 1) st e (some ks) = processNodes ev fuel { st with rng := rng } ks := by
-  simp [genIf, ht, hc, seq, withRng]
-
-/-! ### `<loop>` -/
-
-/-- **one iteration**: when the test before the pass holds, the body is processed with the loop variable
-    bound to the current value, its output is appended, and the loop continues with value + step -/
-theorem loop_iteration (fuel : Nat) (st s1 s2 s3 : St ρ) (ks : Nodes) (cnt : Option Nat) (w u : Option Str)
-    (name : Str) (value step : Rat) (it : Nat) (acc : List Ev) (bb : Option BoundingBox)
-    (r : List Ev × Option BoundingBox)
-    (hpre : preTest ev st cnt w it = (s1, .ok true))
-    (hbody : processNodes ev fuel (bindLoopVar s1 name value) ks = (s2, .ok r))
-    (hlim : it + 1 ≤ s2.cfg.loopLimit)
-    (hpost : postTest ev s2 u = (s3, .ok false)) :
-    loopIter ev (fuel + 1) st ks cnt w u name value step it acc bb =
-      loopIter ev fuel s3 ks cnt w u name (value + step) step (it + 1) (acc ++ r.1) (unionOpt bb r.2) := by
-  rw [loopIter]
-  simp only [seq, hpre, hbody, hpost]
-  have : ¬ (it + 1 > s2.cfg.loopLimit) := by omega
-  simp [this]
-
-/-- the loop ends, rendering nothing more, as soon as the test before a pass fails (count reached, or the
-    `while` condition zero) — **`while` is tested before each pass** -/
-theorem loop_stops_before_pass (fuel : Nat) (st s1 : St ρ) (ks : Nodes) (cnt : Option Nat) (w u : Option Str)
-    (name : Str) (value step : Rat) (it : Nat) (acc : List Ev) (bb : Option BoundingBox)
-    (hpre : preTest ev st cnt w it = (s1, .ok false)) :
-    loopIter ev (fuel + 1) st ks cnt w u name value step it acc bb = (s1, .ok (acc, bb)) := by
-  rw [loopIter]
-  simp [seq, hpre]
-
-/-- **`until` is tested after each pass, so the body is rendered at least once**: with no count and no
-    `while`, the first pass is made whatever the condition says -/
-theorem until_runs_at_least_once (st : St ρ) (it : Nat) :
-    preTest ev st none none it = (st, .ok true) := rfl
-
-/-- … and the loop ends, keeping that pass, when the condition holds after it -/
-theorem until_stops_after_pass (fuel : Nat) (st s1 s2 s3 : St ρ) (ks : Nodes) (cnt : Option Nat) (w u : Option Str)
-    (name : Str) (value step : Rat) (it : Nat) (acc : List Ev) (bb : Option BoundingBox)
-    (r : List Ev × Option BoundingBox)
-    (hpre : preTest ev st cnt w it = (s1, .ok true))
-    (hbody : processNodes ev fuel (bindLoopVar s1 name value) ks = (s2, .ok r))
-    (hlim : it + 1 ≤ s2.cfg.loopLimit)
-    (hpost : postTest ev s2 u = (s3, .ok true)) :
-    loopIter ev (fuel + 1) st ks cnt w u name value step it acc bb = (s3, .ok (acc ++ r.1, unionOpt bb r.2)) := by
-  rw [loopIter]
-  simp only [seq, hpre, hbody, hpost]
-  have : ¬ (it + 1 > s2.cfg.loopLimit) := by omega
-  simp [this]
-
-/-- a count loop's test: pass `it` (0-based) is made iff `it < N`, so exactly N passes -/
-theorem count_test (st : St ρ) (n it : Nat) (w : Option Str) :
-    preTest ev st (some n) w it = (st, .ok (decide (it < n))) := rfl
-
-/-- `count="0"` renders nothing -/
-theorem count_zero_renders_nothing (fuel : Nat) (st : St ρ) (ks : Nodes) (w u : Option Str)
-    (name : Str) (value step : Rat) :
-    loopIter ev (fuel + 1) st ks (some 0) w u name value step 0 [] none = (st, .ok ([], none)) := by
-  rw [loopIter]
-  simp [seq, preTest]
-
-/-- **the loop variable takes start, start+step, start+2·step, …**: the value handed to pass `it` and the
-    one handed to the next pass -/
-theorem loop_var_sequence (start step : Rat) (it : Nat) :
-    (start + it * step) + step = start + ((it + 1 : Nat) : Rat) * step := by
-  push_cast; ring
-
-/-- **iterations only append**: running a loop from an accumulated output is running it from nothing and
-    putting the accumulated output in front — so the loop's output is the concatenation of the outputs of
-    its passes, in order, and its box the union of theirs -/
-theorem loop_appends (fuel : Nat) : ∀ (st : St ρ) (ks : Nodes) (cnt : Option Nat) (w u : Option Str)
-    (name : Str) (value step : Rat) (it : Nat) (acc : List Ev) (bb : Option BoundingBox),
-    loopIter ev fuel st ks cnt w u name value step it acc bb =
-      prepend acc bb (loopIter ev fuel st ks cnt w u name value step it [] none) := by
-  induction fuel with
-  | zero => intros; simp [loopIter, prepend]
-  | succ fuel ih =>
-    intro st ks cnt w u name value step it acc bb
-    rw [loopIter, loopIter]
-    unfold seq
-    cases hp : (preTest ev st cnt w it).2 with
-    | error e => simp [prepend]
-    | ok go =>
-      dsimp only
-      cases go with
-      | false => simp [prepend, unionOpt]
-      | true =>
-        simp only [Bool.not_true, Bool.false_eq_true, if_false]
-        cases hb : (processNodes ev fuel (bindLoopVar (preTest ev st cnt w it).1 name value) ks).2 with
-        | error e => simp [prepend]
-        | ok r =>
-          dsimp only
-          split
-          · simp [prepend]
-          · cases hq : (postTest ev (processNodes ev fuel (bindLoopVar (preTest ev st cnt w it).1 name value) ks).1 u).2 with
-            | error e => simp [prepend]
-            | ok stop =>
-              dsimp only
-              cases stop with
-              | true => simp [prepend, unionOpt_none_left]
-              | false =>
-                simp only [Bool.false_eq_true, if_false, List.nil_append, unionOpt_none_left]
-                rw [ih _ _ _ _ _ _ _ _ _ (acc ++ r.1) (unionOpt bb r.2), ih _ _ _ _ _ _ _ _ _ r.1 r.2]
-                simp only [prepend]
-                congr 1
-                split <;> simp [unionOpt_assoc]
-
-/-! ### `<for>` -/
-
-/-- **`<for>` binds each item (and its index) in turn**: one step of the iteration -/
-theorem for_iteration (fuel : Nat) (st s2 : St ρ) (ks : Nodes) (v : Str) (iv : Option Str) (item : Str)
-    (items : List Str) (idx : Nat) (acc : List Ev) (bb : Option BoundingBox) (r : List Ev × Option BoundingBox)
-    (hbody : processNodes ev fuel (bindForVars st v iv item idx) ks = (s2, .ok r))
-    (hlim : idx + 1 ≤ s2.cfg.loopLimit) :
-    forIter ev (fuel + 1) st ks v iv (item :: items) idx acc bb =
-      forIter ev fuel s2 ks v iv items (idx + 1) (acc ++ r.1) (unionOpt bb r.2) := by
-  rw [forIter]
-  simp only [seq, hbody]
-  have : ¬ (idx + 1 > s2.cfg.loopLimit) := by omega
-  simp [this]
-
-/-- an exhausted list ends the iteration -/
-theorem for_done (fuel : Nat) (st : St ρ) (ks : Nodes) (v : Str) (iv : Option Str) (idx : Nat)
-    (acc : List Ev) (bb : Option BoundingBox) :
-    forIter ev (fuel + 1) st ks v iv [] idx acc bb = (st, .ok (acc, bb)) := by
-  rw [forIter]
-
-/-- the bindings of one `<for>` pass: the item, then the 0-based index when `idx-var` is given -/
-theorem for_bindings (st : St ρ) (v i item : Str) (idx : Nat) :
-    bindForVars st v (some i) item idx = (st.setVar v item).setVar i (Str.natToStr idx) ∧
-    bindForVars st v none item idx = st.setVar v item := ⟨rfl, rfl⟩
-
-/-! ### the unrolling's `<var>` binds like the loop -/
-
-/-- `<var name="value"/>` with a value the evaluator returns unchanged (a literal) puts the state in
-    exactly the condition the loop puts it in before a pass: `set_var name value` in the innermost scope -/
-theorem var_element_binds_like_loop (st : St ρ) (e : Elem) (name value : Str) (rng : ρ)
-    (ha : e.attrs = [(name, value)]) (hn : name ≠ ['_'] ∧ name ≠ cs!"__")
-    (hev : ev.evalAttr st.geo st.env st.rng value = .ok (value, rng))
-    (hlim : (String.ofList value).utf8ByteSize ≤ st.cfg.varLimit) :
-    genVar ev st e = (({ st with rng := rng } : St ρ).setVar name value, .ok ([], none)) := by
-  have h3 : ¬ ((String.ofList value).utf8ByteSize > st.cfg.varLimit) := by omega
-  simp [genVar, ha, List.foldlM, hn.1, hn.2, hev, h3, bind, Except.bind, pure, Except.pure]
-
-/-- and that is what `bindLoopVar` does with the rendered loop value -/
-theorem loop_binding (st : St ρ) (name : Str) (value : Rat) (hn : name ≠ []) :
-    bindLoopVar st name value = st.setVar name (loopVarStr value) := by
-  cases name with
-  | nil => exact absurd rfl hn
-  | cons c cs => simp [bindLoopVar]
+/-- **the model's fuel never decides**: a result that is not the fuel error is the result for every larger
+    fuel (documents without a non-empty `<specs>`; inside `<specs>` every error is swallowed, by the code
+    as by the model, so there the statement would be false) -/
+theorem fuel_does_not_decide (ev : Evalr ρ) (f f' : Nat) (st : St ρ) (ks : Nodes) (h : f ≤ f') (hok : Ok st)
+    (hks : ks.specsFree = true) (hnf : NF (processNodes ev f st ks)) :
+    processNodes ev f' st ks = processNodes ev f st ks :=
+  processNodes_fuel_robust ev f f' st ks h hok hks hnf
 
 end Svgdx.Props.C16
 
@@ -208,3 +98,9 @@ end Svgdx.Props.C16
 #print axioms Svgdx.Props.C16.for_bindings
 #print axioms Svgdx.Props.C16.var_element_binds_like_loop
 #print axioms Svgdx.Props.C16.loop_binding
+#print axioms Svgdx.Props.C16.loop_equals_unrolling
+#print axioms Svgdx.Props.C16.loop_and_unrolling_succeed
+#print axioms Svgdx.Props.C16.loop_element_equals_unrolling
+#print axioms Svgdx.Props.C16.fuel_does_not_decide
+#print axioms Svgdx.Ctl.UnrollExample.loop_is_unrolling
+#print axioms Svgdx.Ctl.UnrollExample.firstTry
